@@ -78,14 +78,25 @@ Proof.
   - fold (strop_lang l ty tok). destruct (strop_lang l ty tok); reflexivity.
 Qed.
 
-(* ---- configuration overrides: the soundness statement is false for SOME configurations with a failure handler ----
-   cfg_c with reserved_identifiers overridden to ["a"; "_a"]:  "a" -> "_a" (keyword) -> dry-run keyword check fails ->
-   handler returns "_a" unchanged -> returned although reserved.  The side condition chk_sound excludes exactly this. *)
+(* ---- configuration overrides ----
+   In a tree whose strop re-verifies what it returns (sc_reverify = true: the fix for F-STROP-HANDLER-UNVERIFIED) soundness needs
+   nothing about the handlers: only chk_base (alphabet, affixes, digit guard -- what makes the token a valid identifier). *)
+Lemma strop_sound_reverify_gen cfg :
+  sc_reverify cfg = true -> chk_base py_uni cfg = true ->
+  forall ty s t, s <> [] -> strop py_uni py_isspace cfg ty s = Ok t ->
+  valid_ident t = true /\ is_reserved cfg t = false /\ matches_reserved_pattern py_uni cfg ty t = false.
+Proof.
+  intros Hr Hb. apply strop_sound_gen. unfold chk_sound. rewrite Hb, Hr. reflexivity.
+Qed.
+
+(* The quirk-faithful model of a tree WITHOUT the final re-verification (sc_reverify := false), C configuration with
+   reserved_identifiers overridden to ["a"; "_a"]:  "a" -> "_a" (keyword) -> dry-run keyword check fails -> handler returns "_a"
+   unchanged -> returned although reserved.  The side condition chk_sound excludes exactly this. *)
 Definition cfg_c_override : strop_cfg :=
   {| sc_reserved := [[97]; [95; 97]]; sc_patterns := sc_patterns cfg_c; sc_rules := sc_rules cfg_c;
      sc_prefix := sc_prefix cfg_c; sc_suffix := sc_suffix cfg_c; sc_enc_prefix := sc_enc_prefix cfg_c;
      sc_ws_char := sc_ws_char cfg_c; sc_collapse := sc_collapse cfg_c;
-     sc_strop_handler := sc_strop_handler cfg_c; sc_enc_handler := sc_enc_handler cfg_c |}.
+     sc_strop_handler := sc_strop_handler cfg_c; sc_enc_handler := sc_enc_handler cfg_c; sc_reverify := false |}.
 
 Lemma strop_sound_override_refuted_thm :
   exists ty s t, s <> [] /\ strop py_uni py_isspace cfg_c_override ty s = Ok t /\ is_reserved cfg_c_override t = true.
@@ -93,3 +104,35 @@ Proof. exists ty_any, [97], [95; 97]. split; [discriminate|]. vm_compute. split;
 
 Lemma chk_sound_override_false : chk_sound py_uni cfg_c_override = false.
 Proof. vm_compute; reflexivity. Qed.
+
+(* the same override on the configuration /repo has NOW (sc_reverify as regenerated) *)
+Definition cfg_c_override_now : strop_cfg :=
+  {| sc_reserved := [[97]; [95; 97]]; sc_patterns := sc_patterns cfg_c; sc_rules := sc_rules cfg_c;
+     sc_prefix := sc_prefix cfg_c; sc_suffix := sc_suffix cfg_c; sc_enc_prefix := sc_enc_prefix cfg_c;
+     sc_ws_char := sc_ws_char cfg_c; sc_collapse := sc_collapse cfg_c;
+     sc_strop_handler := sc_strop_handler cfg_c; sc_enc_handler := sc_enc_handler cfg_c; sc_reverify := strop_reverifies |}.
+
+(* which of the two holds is decided by the regenerated flag: with the fix, every override with chk_base is sound (and the
+   witness override is rejected with RuntimeError); without it, the witness override returns the reserved `_a` *)
+Definition override_state : Prop :=
+  if strop_reverifies
+  then (forall l, sc_reverify (cfg_of l) = true)
+       /\ chk_sound py_uni cfg_c_override_now = true
+       /\ strop py_uni py_isspace cfg_c_override_now ty_any [97] = ErrRuntime
+  else strop py_uni py_isspace cfg_c_override_now ty_any [97] = Ok [95; 97] /\ is_reserved cfg_c_override_now [95; 97] = true.
+
+Lemma override_state_thm : override_state.
+Proof.
+  unfold override_state. destruct strop_reverifies eqn:E.
+  - first [vm_compute in E; discriminate E
+          |split; [intros l; destruct l; vm_compute; reflexivity|split; vm_compute; reflexivity]].
+  - first [vm_compute in E; discriminate E|split; vm_compute; reflexivity].
+Qed.
+
+(* ---- Python's reserved list covers keyword.kwlist + dir(builtins) of the interpreter (independent table) ---- *)
+Lemma py_reserved_covers_interpreter_thm :
+  forall w, In w (py_kwlist ++ py_interpreter_reserved) -> reserved_lang LPy w = true.
+Proof.
+  assert (H : forallb (fun w => reserved_lang LPy w) (py_kwlist ++ py_interpreter_reserved) = true) by (vm_compute; reflexivity).
+  rewrite forallb_forall in H. exact H.
+Qed.
